@@ -250,6 +250,7 @@ pub(crate) fn load_and_record(
     cache: AnyCache,
     id: SharedString,
     typ: Type,
+    _cached: bool,
 ) -> Result<CacheEntry, Error> {
     #[cfg(feature = "hot-reloading")]
     if typ.is_hot_reloaded() {
@@ -258,7 +259,13 @@ pub(crate) fn load_and_record(
                 (typ.inner.load)(cache, id.clone())
             });
             if entry.is_ok() {
-                reloader.add_asset(id, deps, typ);
+                if _cached {
+                    reloader.add_asset(id, deps, typ);
+                } else {
+                    // The value is not stored in the cache, so there is
+                    // nothing to reload
+                    reloader.add_owned_asset(id, deps, typ);
+                }
             }
             return entry;
         }
